@@ -69,6 +69,7 @@ func genDenseHistory(r *rand.Rand, idx int) *history {
 			if r.IntN(4) != 0 {
 				p.Fields["ff"] = kit.Value(r, 'f')
 			}
+			resign(&p)
 			first = append(first, p)
 		}
 	}
@@ -204,6 +205,7 @@ func genHistory(r *rand.Rand, idx int, singleGen bool, nops int) *history {
 					p.Fields["fi"] = kit.Value(r, 'i')
 				}
 			}
+			resign(&p)
 			cur[key] = true
 			pts = append(pts, p)
 		}
@@ -219,6 +221,9 @@ func genHistory(r *rand.Rand, idx int, singleGen bool, nops int) *history {
 			}
 			seed[i].Fields = fs
 		}
+	}
+	for i := range seed {
+		resign(&seed[i])
 	}
 	for _, p := range seed {
 		cur[model.SeriesKey(p.Tags)+"@"+strconv.FormatInt(p.T, 10)] = true
@@ -843,6 +848,32 @@ func genQuery(r *rand.Rand, times []int64, fields []callSpec) querySpec {
 // max-rows-per-segment — and is as narrow as that one row, its neighbour, or reaches back to
 // the beginning: the statistics path decides per segment whether to read it, skip it or take
 // its stored statistics, and the edges of those decisions are where it goes wrong.
+// resign gives the numeric values a sign by series: the shared value source only produces
+// positive, ever growing numbers, and extremes that start from 0 (or from the smallest positive
+// float) are only wrong for data that never rises above it. Series of host b carry negative
+// values only, those of host c (and region y of the wider histories) alternate by timestamp,
+// the others stay positive. Negation keeps the values distinct.
+func resign(p *model.Point) {
+	neg := false
+	switch p.Tags["host"] {
+	case "b":
+		neg = true
+	case "c":
+		neg = (p.T/1_000_000_000)%2 == 0
+	}
+	if !neg {
+		return
+	}
+	for k, v := range p.Fields {
+		switch v.Kind {
+		case 'i':
+			p.Fields[k] = model.Int(-v.I)
+		case 'f':
+			p.Fields[k] = model.Float(-v.F)
+		}
+	}
+}
+
 func genEdgeProbe(r *rand.Rand, times []int64, fields []callSpec, seg, k int) querySpec {
 	f := fields[r.IntN(len(fields))]
 	q := querySpec{Func: []string{"max", "min", "last", "first", "count", "sum"}[k%6], Field: f.Field, Kind: f.Kind, Bound: true}
